@@ -178,6 +178,18 @@ class Gen:
                 self.assign_indices(vs)
                 D.append({'kind': 'enum', 'name': 'E%d' % len(D), 'variants': vs, 'generics': []})
                 count += 1
+        # explicit discriminants that are not integer literals: byte literals, parenthesised and computed expressions
+        # (the value of the expression is the index, whatever its syntax)
+        vs = []
+        for i, (val, src) in enumerate([(80, "b'P'"), (7, '(7)'), (2, '1 + 1'), (None, None), (10, "b'\\n'"), (0x41, "b'\\x41'")]):
+            v = {'name': 'V%d' % i, 'fields': [], 'skip': False, 'src': 'discr' if src else 'implicit', 'kind': 'unit'}
+            if src:
+                v['discr'] = val
+                v['discr_src'] = src
+            vs.append(v)
+        self.assign_indices(vs)
+        D.append({'kind': 'enum', 'name': 'E%d' % len(D), 'variants': vs, 'generics': [], 'repr': 'u8'})
+        count += 1
         # enums with fields (no discriminants): unit / tuple / named variants, attribute indices, skips
         for nv in range(1, 7):
             for base in range(3):
@@ -336,6 +348,8 @@ def render(defs):
             else:
                 out.append('pub struct %s%s%s;' % (d['name'], gen, fields_src(d['fields'], False)))
         else:
+            if d.get('repr'):
+                out.append('#[repr(%s)]' % d['repr'])
             out.append('pub enum %s%s {' % (d['name'], gen))
             for v in d['variants']:
                 line = '    '
@@ -349,7 +363,7 @@ def render(defs):
                         line += '#[codec(index = %s)] ' % _lit(v['attr_index'])
                 line += v['name'] + vfields_src(v['fields'], v['kind'])
                 if 'discr' in v:
-                    line += ' = %s' % _lit(v['discr'], suffix=False)
+                    line += ' = %s' % (v.get('discr_src') or _lit(v['discr'], suffix=False))
                 out.append(line + ',')
             out.append('}')
         out.append('')
